@@ -372,6 +372,8 @@ class Exec:
             if op[1].endswith('f64'): return 'f64'
             m = re.match(r"'.*'$", op[1])
             if m: return 'char'
+            m = re.match(r'(?:.*::)?<impl ((?:u|i)(?:8|16|32|64|128|size)|f64|f32)>::\w+$', op[1])
+            if m: return m.group(1)
             return ''
         return self.place_type(fr, op[1])
 
